@@ -627,7 +627,10 @@ META = {
                   "on an archive body of (offset,length) descriptors with every member size and the pack position symbolic: "
                   "z3 decides that each member is written from exactly its own byte range for all sizes, 1..3 folders x 1..2 "
                   "streams; number and bit-vector decoding are compared with the 7z specification on fully symbolic bytes; "
-                  "order, labels and failure isolation of the ZIP/TAR loops are explored on fake containers.",
+                  "order, labels and failure isolation of the ZIP/TAR loops are explored on fake containers; the LZMA2 dictionary size "
+                  "handed to the decoder is compared with the xz specification for every property byte, container detection "
+                  "runs on a fully symbolic first block against the formats' own signatures, and tar archives in all three "
+                  "header formats x four wrappers go through read_archive.",
     "level_note": "Trusted: COPY coder semantics; decompressors are C libraries. Counterexamples of K1 are also replayed "
                   "through read_archive on a real COPY-coder 7z written by the harness.",
     "technique": "symbolic execution of the 7z reader on symbolic sizes / bytes (symrun SymInt, SymBV), equality with the "
